@@ -543,44 +543,50 @@ def decl_precedence_traces(c):
     """A block supplied both on the declaration and in a splicer file: the
     on-declaration code must win (it reaches _create_splicer as force)."""
     traces = []
-    with common.scratch("c12d-") as base:
-        y = {"library": "decl", "cxx_header": "decl.hpp", "options": {"wrap_python": True},
-             "declarations": [
-                 {"decl": "int foo(int a)",
-                  "splicer": {"c": ["// ONDECL c", "return 1;"], "f": ["! ONDECL f", "SHT_rv = 1"],
-                              "py": ["// ONDECL py"]}},
-                 {"decl": "int bar(int a)"}],
-             "splicer": {"c": ["u.c"], "f": ["u.f"]}}
-        with open(os.path.join(base, "u.c"), "w") as f:
-            f.write("// splicer begin function.foo\n// FROMFILE foo\n// splicer end function.foo\n"
-                    "// splicer begin function.bar\n// FROMFILE bar\n// splicer end function.bar\n")
-        with open(os.path.join(base, "u.f"), "w") as f:
-            f.write("! splicer begin function.foo\n! FROMFILE foo\n! splicer end function.foo\n"
-                    "! splicer begin function.bar\n! FROMFILE bar\n! splicer end function.bar\n")
-        yp = os.path.join(base, "decl.yaml")
-        dump_yaml(y, yp)
-        out = os.path.join(base, "o")
-        rc, so, se = run_lib(yp, out, [], out + ".ndjson")
-        if rc != 0:
-            c.violation("decl-run-fails", "run with on-declaration splicers fails: " + se[-500:])
-            return traces
-        ev = shroudrun.read_events(out + ".ndjson")
-        traces += emit_traces(ev)
-        rb, errs = readback(files_by_lang(ev))
-        sup = [{"lang": "c", "p": ["function", "foo"], "b": ["// ONDECL c", "return 1;"]},
-               {"lang": "f", "p": ["function", "foo"], "b": ["! ONDECL f", "SHT_rv = 1"]},
-               {"lang": "c", "p": ["function", "bar"], "b": ["// FROMFILE bar"]},
-               {"lang": "f", "p": ["function", "bar"], "b": ["! FROMFILE bar"]}]
-        sup = [s for s in sup if ".".join(s["p"]) in rb.get(s["lang"], {})]
-        if len(sup) < 3:
-            raise MachineryError("decl precedence experiment lost its blocks: %r" % sup)
-        rbl = []
-        for lang, dd in rb.items():
-            for p, bodies in dd.items():
-                for b in bodies:
-                    rbl.append({"lang": lang, "p": p.split("."), "b": [enc(x) for x in b]})
-        traces += block_traces("decl:precedence:decl",
-                               [{"lang": s["lang"], "p": s["p"], "b": [enc(x) for x in s["b"]]} for s in sup], rbl)
+    # C++, a C library (a function over native values needs no C wrapper of its own: the code given on the
+    # declaration is the reason to write one), and C++ with C_extern_C
+    for variant, extra, opts in (("cxx", {}, {}), ("c", {"language": "c"}, {}), ("extern-c", {}, {"C_extern_C": True})):
+      with common.scratch("c12d-") as base:
+          y = {"library": "decl", "cxx_header": "decl.hpp", "options": dict({"wrap_python": True}, **opts),
+               "declarations": [
+                   {"decl": "int foo(int a)",
+                    "splicer": {"c": ["// ONDECL c", "return 1;"], "f": ["! ONDECL f", "SHT_rv = 1"],
+                                "py": ["// ONDECL py"]}},
+                   {"decl": "int bar(int a)"}],
+               "splicer": {"c": ["u.c"], "f": ["u.f"]}}
+          y.update(extra)
+          with open(os.path.join(base, "u.c"), "w") as f:
+              f.write("// splicer begin function.foo\n// FROMFILE foo\n// splicer end function.foo\n"
+                      "// splicer begin function.bar\n// FROMFILE bar\n// splicer end function.bar\n")
+          with open(os.path.join(base, "u.f"), "w") as f:
+              f.write("! splicer begin function.foo\n! FROMFILE foo\n! splicer end function.foo\n"
+                      "! splicer begin function.bar\n! FROMFILE bar\n! splicer end function.bar\n")
+          yp = os.path.join(base, "decl.yaml")
+          dump_yaml(y, yp)
+          out = os.path.join(base, "o")
+          rc, so, se = run_lib(yp, out, [], out + ".ndjson")
+          if rc != 0:
+              c.violation("decl-run-fails:" + variant, "run with on-declaration splicers fails: " + se[-500:])
+              continue
+          ev = shroudrun.read_events(out + ".ndjson")
+          traces += emit_traces(ev)
+          rb, errs = readback(files_by_lang(ev))
+          sup = [{"lang": "c", "p": ["function", "foo"], "b": ["// ONDECL c", "return 1;"]},
+                 {"lang": "f", "p": ["function", "foo"], "b": ["! ONDECL f", "SHT_rv = 1"]},
+                 {"lang": "c", "p": ["function", "bar"], "b": ["// FROMFILE bar"]},
+                 {"lang": "f", "p": ["function", "bar"], "b": ["! FROMFILE bar"]}]
+          # code given on the declaration must arrive; code from a file for a block that this configuration does
+          # not write (no wrapper needed) has nowhere to go
+          sup = [s for s in sup if s["b"][0].startswith(("// ONDECL", "! ONDECL")) or ".".join(s["p"]) in rb.get(s["lang"], {})]
+          if len(sup) < 2:
+              raise MachineryError("decl precedence experiment lost its blocks: %r" % sup)
+          rbl = []
+          for lang, dd in rb.items():
+              for p, bodies in dd.items():
+                  for b in bodies:
+                      rbl.append({"lang": lang, "p": p.split("."), "b": [enc(x) for x in b]})
+          traces += block_traces("decl:precedence:" + variant,
+                                 [{"lang": s["lang"], "p": s["p"], "b": [enc(x) for x in s["b"]]} for s in sup], rbl)
     return traces
 
 
